@@ -270,7 +270,10 @@ def run_bilinear(ctx, rng, n, monitor):
             impl = gen.choice(rng, [lambda x, y: numpoly.outer(x, y), lambda x, y: numpy.outer(x, y)])
         else:
             sa, sb = gen.choice(rng, [((2, 3), (3, 2)), ((1, 2), (2, 1)), ((2, 2), (2, 2)), ((2, 2, 3), (3, 2)), ((2, 1, 2), (2, 2, 1)),
-                                      ((3,), (3,)), ((2, 3), (3,)), ((3,), (3, 2)), ((1, 1), (1, 1))])
+                                      ((3,), (3,)), ((2, 3), (3,)), ((3,), (3, 2)), ((1, 1), (1, 1)),
+                                      # the second operand carries more stack dimensions than the first, broadcast stacks
+                                      ((3, 3), (2, 3, 3)), ((2, 3), (2, 3, 2)), ((2, 2, 2), (3, 2, 2, 2)), ((1, 2, 3), (2, 3, 1)),
+                                      ((2, 1, 2, 2), (3, 2, 2))])
             a, b = P(rng, sa, **kw), P(rng, sb, names=gen.gen_names(rng, 1, 2), **kw)
             mp = matmul_pairs(sa, sb)
             if mp is None:
